@@ -10,15 +10,34 @@ TRUSTED = [
 UNVERIFIED = [
     '"AFTER EVERY SUCCESSFUL STORE INSTRUCTION" IS NOT PROVED: this check proves what a successful validation GUARANTEES (recorded balance minus the excluded amounts covers liquidity + swap impact + claimable fees, and separately the total collateral, for both pool tokens; both halves for a single-token market) and how the recorded balances MOVE (record_transferred_in/out change exactly one side by exactly the amount, never below zero, failure changes nothing). That every instruction which moves vault tokens records the movement and ends with a validation is located by text (call sites counted per file on every run: instructions/market.rs, ops/market.rs, ops/order.rs, revertible/swap_market.rs), not proved',
     'the shared-vault clause (recorded balances of all markets sharing a vault never exceed the vault token balance) is an induction over token transfers performed by CPI; only its per-step arithmetic is stated (lemma_shared_vault_step_in/out); the actual token accounts are outside any contract here',
-    'validate_market_balances_excluding_the_given_token_amounts (loop over an array of (token, amount) pairs): not under contract; it only sums the excluded amounts by side and calls validate_market_balances',
     'the implementation of the pool accessors (RevertibleMarket::pool(kind) through the revertible buffer: C21 material) and of Market::is_pure (flag set from long == short at creation: the invariant rm_wf is a precondition of validate_market_balances)',
-    'no native replay: items of an Anchor program crate / trait-default methods needing a market; a failed obligation is reported with the verifier output and no-failing-input-found',
+    'native run of the three validation methods: their TEXT (verbatim) on plain-Rust carriers over a small domain (balances 0..5 / 0..3, reserved 0..2, collateral {0,2}/{0,1}, three tokens, amounts 0..3, both purities): a bounded search used only to find a failing input / as fallback when a method leaves the Verus subset; never counted as discharged. The other units have no native replay',
 ]
 ASSUMPTIONS = ['rm_wf: the market\'s pure flag equals (long token mint == short token mint) (set at market creation; C17 material)']
 MANIFEST = dict(engine='verus',
-    technique='Verus contracts on ValidateMarketBalances::{validate_market_balance_for_the_given_token, validate_market_balances}, RevertibleMarket::{balance_for_token, record_transferred_in, record_transferred_out} and its Bank impl, Bank::balance_excluding, BaseMarketExt::{expected_min_token_balance_..., total_collateral_amount_for_one_token_side} and MarketMeta::to_token_side, extracted from /repo each run onto one carrier',
-    text='PARTIAL (the enforcement functions; not the per-instruction wiring). Deductive proof, unbounded over all recorded balances (u64), pool amounts (u128), excluded amounts, tokens and both market purities: a successful validate_market_balances means that for each pool token the recorded balance minus the excluded amount covers liquidity + swap impact + claimable fee amounts and, separately, the total position collateral (a single-token market: the sum of both halves against the one recorded balance, with the two excluded amounts added once); record_transferred_in/out and their by-token forms move exactly the recorded balance of that token side by exactly the amount (a single-token market keeps everything on the long side), a transfer out larger than the recorded balance fails, and a failed call changes nothing.',
+    technique='Verus contracts on ValidateMarketBalances::{validate_market_balance_for_the_given_token, validate_market_balances, validate_market_balances_excluding_the_given_token_amounts (array-literal loop through rule R21)}, RevertibleMarket::{balance_for_token, record_transferred_in, record_transferred_out} and its Bank impl, Bank::balance_excluding, BaseMarketExt::{expected_min_token_balance_..., total_collateral_amount_for_one_token_side} and MarketMeta::to_token_side, extracted from /repo each run onto one carrier',
+    text='PARTIAL (the enforcement functions; not the per-instruction wiring). Deductive proof, unbounded over all recorded balances (u64), pool amounts (u128), excluded amounts, tokens and both market purities: a successful validate_market_balances (and validate_market_balances_excluding_the_given_token_amounts, which sets BOTH given amounts aside, each on the side of its token, and rejects a non-zero amount of a non-pool token) means that for each pool token the recorded balance minus the excluded amount covers liquidity + swap impact + claimable fee amounts and, separately, the total position collateral (a single-token market: the sum of both halves against the one recorded balance, with the two excluded amounts added once); record_transferred_in/out and their by-token forms move exactly the recorded balance of that token side by exactly the amount (a single-token market keeps everything on the long side), a transfer out larger than the recorded balance fails, and a failed call changes nothing.',
     note='Partial claim: "after every instruction" and the shared-vault sum are listed as unverified (call sites located by text).')
+
+
+def _native(repo):
+    from engine import native
+    return native.run('native/C22.rs', repo)
+
+
+def replay(ob, repo, seed):
+    if 'validate_market_balance' not in ob['id']:
+        return None
+    r = _native(repo)
+    if r['error']:
+        return dict(failing_input=None, note='native run of the extracted text not possible: ' + r['error'])
+    if r['fails']:
+        return dict(failing_input=dict(function='ValidateMarketBalances::validate_market_balances_excluding_the_given_token_amounts -> validate_market_balances -> validate_market_balance_for_the_given_token (text verbatim from /repo on plain-Rust carriers)', cases=r['fails']),
+                    note=f"bounded native search; first failing cases listed; {r['log']}")
+    return dict(failing_input=None, note=f"{r['executions']} native executions of the extracted text satisfied the coverage condition")
+
+
+FALLBACK_OBS = ['C22.validate_market_balances_excluding_the_given_token_amounts']
 
 
 def extra(res, repo, tier, seed):
